@@ -69,6 +69,7 @@ PROPS = {
             {"pkg": "./c14", "run": "TestC14ConcurrentBuild", "race": True, "shards": 2, "shards_thorough": 6, "timeout": 300},
             {"pkg": "./mainpkg", "run": "^TestC14", "shards": 4, "shards_thorough": 8, "timeout": 400},
             {"pkg": "./mainpkg", "run": "^TestC14Pipeline", "race": True, "shards": 4, "shards_thorough": 4, "timeout": 400},
+            {"pkg": "./c06", "run": "^TestC14", "shards": 2, "shards_thorough": 4, "timeout": 300},
         ],
         "rule": ("rapid-generated Consul catalog entries: service names (plain, dotted, with space/tab/newline, quote, backslash, non-ASCII, empty, keywords), service/node addresses (IPv4, IPv6, host name, empty -> node "
                  "address), ports, 1-3 urlprefix- tags host/path with mixed-case hosts, :port form, $DC/${DC} expansion, glob characters, and 0-3 options from {proto=tcp|https|grpc|grpcs|http|bogus, weight=<float|junk|Inf|"
